@@ -1,8 +1,8 @@
 SPECIFICATION MCSpec
 CONSTANTS
-  MaxRecs = 6
+  MaxRecs = 5
   MaxBatch = 1
-  MaxOps = 9
+  MaxOps = 8
   MaxEpoch = 2
   CapSet = {2, 3}
   OccSet = {TRUE}
